@@ -13,8 +13,9 @@ use crate::util::*;
 pub struct C16;
 
 fn payload(rng: &mut Rng) -> Vec<u8> {
-    match rng.below(10) {
+    match rng.below(11) {
         0 => vec![],
+        10 => known_payload(rng),
         1 | 2 => {
             let n = *rng.pick(&[1usize, 2, 40, 74, 75, 76, 77, 80, 83, 255, 256, 300, 520, 4000]);
             text(rng, n)
@@ -67,7 +68,7 @@ impl Prop for C16 {
         }
     }
     fn required_probes(&self, _tier: Tier) -> Vec<&'static str> {
-        vec!["payload_pushdata1", "payload_pushdata2", "payload_pushdata4", "payload_76_80", "invalid_utf8_payload", "empty_payload", "multibyte_utf8_line", "sub_range_run", "lines_before_a_failing_block"]
+        vec!["payload_pushdata1", "payload_pushdata2", "payload_pushdata4", "payload_76_80", "invalid_utf8_payload", "empty_payload", "multibyte_utf8_line", "sub_range_run", "lines_before_a_failing_block", "witness_commitment_payload_fork_coin"]
     }
     fn explore(&self, item: u64, rng: &mut Rng, _tier: Tier, h: &mut Harness) -> Result<(), String> {
         let coin = COINS[(item % 8) as usize];
@@ -175,6 +176,9 @@ impl Prop for C16 {
             scn.runs.push(r2);
         }
         super::dress(&mut scn, rng, true);
+        if seen_payloads.iter().any(|p| p.len() == 36 && p.starts_with(&[0xaa, 0x21, 0xa9, 0xed])) {
+            h.stats.probe(if coin == "bitcoin" || coin == "testnet3" { "witness_commitment_payload_bitcoin" } else { "witness_commitment_payload_fork_coin" });
+        }
         h.check(&mut scn)?;
         // a block that cannot be read in the middle of the range: the lines of the blocks processed before
         // it must have been printed (and nothing else), the run fails
